@@ -86,6 +86,17 @@ TEXT['C11'] = (
     'findings with their triggers excluded from generation.',
     'DESIGN.md 3.11')
 
+TEXT['C10'] = (
+    'Seeded search over histories on 1-3 References objects (1-8 reference species over 1-5 descriptors, elements or a custom '
+    'descriptor dictionary, full-rank / rank-deficient / over-determined, equal or slightly different T_ref) edited by append, '
+    'extend, pop, remove, __setitem__, refit, construction with given offsets, and shared by several target StatMech species, '
+    'including JSON reloads of targets. At every fit event, for the list as it then is: least-squares residual orthogonal to '
+    'the descriptor matrix (A^T r = 0), zero residual and every reference reproduced through the public StatMech path when the '
+    'references determine the offsets. After every step, for every target and whatever the offsets: H(on)-H(off) and '
+    'G(on)-G(off) equal -sum(offset*composition)*T_ref/T (independent of T in energy units), zero for S, Cp, Cv, and '
+    'use_references=False equals the species without references. The list held by the object mirrors an independent list model.',
+    'DESIGN.md 3.10')
+
 TECHNIQUE = 'deterministic simulation with fault injection (seeded schedule/history search, reference-model oracle, ddmin replay)'
 
 
